@@ -31,23 +31,6 @@ namespace EAO.Driver
 def getCoarse (j : Json) : Except String CoarseGrid := do
   pure { grid := ← field j "grid" getGrid, minor := ← field j "minor" (getList getNats) }
 
-/-- the fine comparison problem of a coarse simple contract -/
-def fineContract (p : ContractP) (ref : Grid) (cg : CoarseGrid) (prices : Prices) (fullT : Nat) :
-    Except BuildError AssetProblem := do
-  if scalarIllPosed p.minCap p.maxCap then throw .illPosed
-  let price ← coarsePrice p.price cg.minor prices fullT
-  simpleCore p (minorGrid ref cg) prices (spreadList cg.owner price)
-
-def fineTransport (p : TransportP) (ref : Grid) (cg : CoarseGrid) (prices : Prices) (fullT : Nat) :
-    Except BuildError AssetProblem := do
-  match p.nodes with
-  | [n0, n1] =>
-    if p.maxCap < p.minCap then throw .assertion
-    if ¬ (0 < p.efficiency) then throw .assertion
-    let cts ← coarseCosts p.costsKey cg.minor prices fullT
-    transportCore p n0 n1 (minorGrid ref cg) (spreadList cg.owner cts)
-  | _ => throw .assertion
-
 def handleCoarseBuild (op : String) (j : Json) : Option (Except String Json) :=
   let known := ["coarse_contract", "coarse_transport"]
   if !known.contains op then none else some <| do
@@ -85,7 +68,7 @@ def handleCoarseBuild (op : String) (j : Json) : Option (Except String Json) :=
     | some cg, _ =>
       let r := buildCoarseSimpleContract p cg ref.dt prices fullT
       let rG := cuts.map fun c => buildCoarseSimpleContractG p ref fa fp c prices
-      pure (Json.mkObj (answer r rG ++ coarsenInfo ++ fineInfo cg (fineContract p ref cg prices fullT)))
+      pure (Json.mkObj (answer r rG ++ coarsenInfo ++ fineInfo cg (fineSimpleContract p ref cg prices fullT)))
     | none, some c => pure (Json.mkObj (answer (buildCoarseSimpleContractG p ref fa fp c prices) none))
     | none, none => throw "coarse or cuts expected"
   | "coarse_transport" => do
